@@ -290,4 +290,8 @@ pub(crate) mod verif_forward {
         super::RegExp::sort(&mut test_cases);
         test_cases
     }
+
+    pub(crate) fn indent_regexp(regexp: String, config: &crate::config::RegExpConfig) -> String {
+        super::indent_regexp(regexp, config)
+    }
 }
